@@ -44,6 +44,9 @@ pub struct CaseReport {
     pub known: Vec<(String, String)>,
     /// distinct non-trivial sub-cases inside this case (hashes), for enumerating engines
     pub sub_hashes: Vec<u64>,
+    /// when this (non-trivial, distinct) case stands for `weight` distinct sub-cases that are
+    /// distinct by construction (e.g. all prefix lengths of one image); 0 = 1
+    pub weight: u64,
 }
 
 pub trait Engine {
@@ -84,6 +87,9 @@ pub struct WorkerReport {
     pub known_examples: BTreeMap<String, String>,
     pub exhaustive: bool,
     pub notes: Vec<String>,
+    /// additional distinct non-trivial sub-cases counted by weight (see CaseReport::weight)
+    #[serde(default)]
+    pub distinct_extra: u64,
 }
 
 impl WorkerReport {
@@ -111,6 +117,7 @@ impl WorkerReport {
         }
         self.exhaustive = self.exhaustive || o.exhaustive;
         self.notes.extend(o.notes);
+        self.distinct_extra += o.distinct_extra;
     }
 }
 
@@ -233,6 +240,9 @@ pub fn campaign<E: Engine>(
         rep.nontrivial_hashes.extend(cr.sub_hashes.iter().copied());
         if cr.nontrivial && cr.failure.is_none() {
             let fresh = rep.nontrivial_hashes.insert(cr.hash);
+            if fresh && cr.weight > 1 {
+                rep.distinct_extra += cr.weight - 1;
+            }
             if fresh && rep.samples.len() < 3 {
                 rep.samples.push(e.render(&case));
             }
